@@ -123,17 +123,17 @@ class ModelCloud:
             if acct not in self.accounts:
                 return self._json(None, 3101, "account not found")
             lid = hashlib.md5(f"login id {self._n} {acct}".encode()).hexdigest()
-            self.login_ids[acct] = lid
+            self.login_ids.setdefault(acct, []).append(lid)      # (every id issued for the account stays usable: two clients may log in at once)
             return self._json({"loginId": lid})
         if path == "/v1/user/login":
             acct = fields.get("loginAccount")
-            lid = self.login_ids.get(acct)
-            if lid is None:
+            lids = self.login_ids.get(acct)
+            if not lids:
                 self._bad(path, "login without a login id issued for this account")
                 return self._json(None, 3102, "no login id")
             pw = self.accounts.get(acct, "")
-            want_pw = hashlib.sha256((lid + hashlib.sha256(pw.encode("ascii", "replace")).hexdigest() + APP_KEY).encode("ascii")).hexdigest()
-            if fields.get("password") != want_pw:
+            want_pws = [hashlib.sha256((lid + hashlib.sha256(pw.encode("ascii", "replace")).hexdigest() + APP_KEY).encode("ascii")).hexdigest() for lid in lids]
+            if fields.get("password") not in want_pws:
                 self._bad(path, "password derivation does not match the issued login id")
                 return self._json(None, 3102, "invalid password")
             sid = hashlib.md5(f"session {self._n} {acct}".encode()).hexdigest()
@@ -241,7 +241,7 @@ class ModelSmartHome(ModelCloud):
             if acct not in self.accounts:
                 return self._json(None, 3101, "account not found")
             lid = hashlib.md5(f"sh login id {self._n} {acct}".encode()).hexdigest()
-            self.login_ids[acct] = lid
+            self.login_ids.setdefault(acct, []).append(lid)
             return self._json({"loginId": lid})
         if path == "/mj/user/login":
             iot = body.get("iotData") or {}
@@ -250,14 +250,16 @@ class ModelSmartHome(ModelCloud):
                 self._bad(path, f"data section {data}")
             self._common(path, dict(iot, deviceId=data.get("deviceId"), format=2, language="en_US"), need_lang=False)
             acct = iot.get("loginAccount")
-            lid = self.login_ids.get(acct)
-            if lid is None:
+            lids = self.login_ids.get(acct)
+            if not lids:
                 self._bad(path, "login without a login id issued for this account")
                 return self._json(None, 3102, "no login id")
             pw = self.accounts.get(acct, "")
-            want_pw = hashlib.sha256((lid + hashlib.sha256(pw.encode("ascii", "replace")).hexdigest() + SH_LOGIN_KEY).encode("ascii")).hexdigest()
             md2 = hashlib.md5(hashlib.md5(pw.encode("ascii", "replace")).hexdigest().encode("ascii")).hexdigest()
-            want_iam = hashlib.sha256((lid + md2 + SH_LOGIN_KEY).encode("ascii")).hexdigest()
+            pairs = [(hashlib.sha256((lid + hashlib.sha256(pw.encode("ascii", "replace")).hexdigest() + SH_LOGIN_KEY).encode("ascii")).hexdigest(),
+                      hashlib.sha256((lid + md2 + SH_LOGIN_KEY).encode("ascii")).hexdigest()) for lid in lids]
+            match = [p_ for p_ in pairs if p_[0] == iot.get("password")]
+            want_pw, want_iam = match[0] if match else pairs[-1]
             if iot.get("password") != want_pw:
                 self._bad(path, "password derivation does not match the issued login id")
                 return self._json(None, 3102, "invalid password")
